@@ -385,7 +385,7 @@ def stable(desc):
 
 
 class Site:
-    __slots__ = ('fn', 'desc', 'loc', 'ok', 'paths', 'fail', 'kind', 'how', 'opaque', 'guarded')
+    __slots__ = ('fn', 'desc', 'loc', 'ok', 'paths', 'fail', 'kind', 'how', 'opaque', 'guarded', 'handed')
 
     def __init__(self, fn, desc, loc, kind):
         self.fn = fn
@@ -398,6 +398,7 @@ class Site:
         self.how = set()
         self.opaque = None     # why the failed obligation could not be *refuted* either (information the prover lacks)
         self.guarded = None    # on the failing path some condition relates the index / bound to the slice it indexes
+        self.handed = None     # the failing position is (part of) a closure parameter: delivered by a combinator from a producer not read here
 
 
 _UNREAD_COMBINATORS = ('and_then', 'map', 'map_or', 'map_or_else', 'filter', 'then', 'then_some', 'or_else', 'unwrap_or_else', 'zip', 'position', 'find', 'take_while',
@@ -697,6 +698,15 @@ class Inventory:
                             s.opaque = s.opaque or f'loop cursor {x[2]} is advanced by the {w}'
             for c in conds[-1:]:
                 s.opaque = s.opaque or opaque_container(c[0], self.facts.bodies.get(s.fn), self.lemma_applicable)
+            # the position is (part of) a value handed to this closure by its caller — and_then / map / filter fed by a producer
+            # whose postcondition nothing here reads
+            s.handed = None
+            cb_ = self.facts.bodies.get(s.fn)
+            if cb_ is not None and '::{closure' in s.fn:
+                for t in terms:
+                    for x in subterms(t):
+                        if x[0] == 'init' and isinstance(x[1], int) and 2 <= x[1] <= cb_.argc:
+                            s.handed = f'{cb_.name_of(x[1]) or "_" + str(x[1])}, a value handed to this closure by the combinator that calls it'
             # is the failing obligation guarded at all?  (some condition on the path mentions both the slice and a quantity of the index)
             if terms:
                 bases_ = set()
@@ -1126,6 +1136,9 @@ def report_sites(run, rule, inv, assume, floor=None):
                               f'whether its callers establish the bound is not decided', s.loc)
             elif s.opaque:
                 run.undecided(rule, fn, desc, f'panic site not discharged, but not refuted either ({s.opaque}, which the provers do not model): {s.fail}', s.loc)
+            elif getattr(s, 'handed', None):
+                run.undecided(rule, fn, desc, f'panic site (not on the pinned tree in this form) not discharged: {s.fail}; the position comes from {s.handed}: '
+                              'whether its producer establishes the bound is not decided', s.loc)
             elif s.guarded:
                 # a site that did not exist in this form on the pinned tree; a condition on the path does relate the slice and the index, the provers just cannot conclude from it
                 run.undecided(rule, fn, desc, f'panic site (new in this function) not discharged: {s.fail}; a condition on the path relates the slice and the position, '
